@@ -1,0 +1,32 @@
+//go:build verif
+
+// Contracts for the deductive verification in /verif (comment-only; compiled code is unaffected).
+package locker
+
+// Ghost state: held = key locks held by the current request, prelocked = locker-wide mutex held by it.
+
+//@ iface Service.PreLock(self)
+//@ flag noalloc
+//@ requires [nothingheld] !prelocked && (forall k [48]byte :: !held[k])
+//@ modifies prelocked
+//@ ensures prelocked
+
+//@ iface Service.PostLock(self)
+//@ flag noalloc
+//@ requires [inprelock] prelocked
+//@ modifies prelocked
+//@ ensures !prelocked
+
+//@ iface Service.Lock(self, key)
+//@ flag noalloc
+//@ requires [inprelock] prelocked
+//@ requires [notheld] !held[key]
+//@ modifies held
+//@ ensures held == old(held)[key := true]
+
+//@ iface Service.Unlock(self, key)
+//@ flag noalloc deferset
+//@ requires [held] held[key]
+//@ modifies held
+//@ ensures held == old(held)[key := false]
+//@ setensures forall k [48]byte :: held[k] <==> (old(held)[k] && !keys[k])
